@@ -6,6 +6,7 @@ CONSTANTS FullRank = 3
  XKeep = 1
  MoreTypes = 0
  TKeep = 1
+ I32Both = 1
  Budget = 5000
 INVARIANT AllRoutesRefineL1
 CHECK_DEADLOCK FALSE
